@@ -96,11 +96,12 @@ def indexBatch (ix : Index) (b : Blk) (prevCount : Nat) : Index :=
     heightIdx := KV.set ix.heightIdx b.height b.hash, txMeta := tm,
     metaDB := some (b.height, b.hash, countOf b + prevCount) }
 
-/-- the state part of one block in the store engine: two storage writes (and, in block 1 and every third block, a
+/-- the state part of one block in the store engine: three storage writes, one of them under a key of raw bytes (and, in block 1 and every third block, a
 balance write, so that most blocks change only the storage of an account that has a balance), flush, commit -/
 def stateCommit (l : Ledger.L) (h : Nat) (serial : Nat) (txs : List String) : Ledger.L :=
   let l1 := Ledger.setState l 0 "height" (some (toString h))
-  let l2a := Ledger.setState l1 0 s!"k{h}" (some (",".intercalate txs))
+  let l2b := Ledger.setState l1 0 s!"k{h}" (some (",".intercalate txs))
+  let l2a := Ledger.setState l2b 0 "binheight" (some (toString h))      -- the raw-byte key 0xff 0xfe 'h' of the harness
   let l2 := if h == 1 || h % 3 == 0 then Ledger.setBalance l2a 0 (1000 + (h : Int)) else l2a
   let l3 := Ledger.finalise l2
   let (l4, f) := Ledger.flush (fun _ => s!"r{h}-{serial}") l3
